@@ -1,6 +1,6 @@
 ---------------------------- MODULE MC_PathRefine ----------------------------
 (* Path.get_refined as its loop (one action per original point) for every small path (points, labels dict, breaks
-   list) and refinement factor inside the constants.  The refined path is checked against the loop-free statement
+   list without a break at the last point: PathOK) and refinement factor inside the constants.  The refined path is checked against the loop-free statement
    (original point i sits at RefIdx(i) with its label / break, uniform sub-division, path coordinate unchanged). *)
 EXTENDS PathSpec
 
@@ -22,7 +22,6 @@ NodePathsDef ==
      strip(FromNodes(<<<<0, 0, 0>>, <<1, 0, 2>>, NoneNode, <<0, 1, 1>>, <<-1, 1, 0>>>>, <<"G", "X", "Y", "G">>, SpecList(<<4, 3>>))),
      strip(FromNodes(<<<<1, 1, 1>>, NoneNode, <<0, 0, 0>>, <<2, 0, 0>>>>, <<"R", "G", "X">>, SpecList(<<5>>))) }
 NoPaths == {}
-THR2 == <<3, 7>>      \* break_thresh^2 (never equal to a squared step: 7 divides no denominator)
 
 VARIABLES P, f, i, r, pc, aux
 vars == <<P, f, i, r, pc, aux>>
@@ -47,8 +46,7 @@ Subdivide == /\ pc = "refine" /\ i < Len(P.K) - 1 /\ i \notin BreakSet(P)
              /\ UNCHANGED <<P, f, pc, aux>>
 LastPoint == /\ pc = "refine" /\ i >= Len(P.K) - 1
              /\ r' = RefAppend(r, P, Len(P.K) - 1) /\ pc' = "done"
-             /\ aux' = [steps |-> IF KlineOK(r') THEN KlineSteps(r', LatA, NoThresh) ELSE <<>>,
-                        stepsT |-> IF KlineOK(r') THEN KlineSteps(r', LatA, THR2) ELSE <<>>]
+             /\ aux' = [steps |-> KlineSteps(r', LatA, NoThresh)]
              /\ UNCHANGED <<P, f, i>>
 Next == KeepBreak \/ Subdivide \/ LastPoint
 Spec == Init /\ [][Next]_vars
@@ -61,6 +59,6 @@ InvKeeps == Done => /\ KeepsPoints(P, f, r) /\ KeepsLabels(P, f, r) /\ KeepsBrea
 InvIdentity == Done /\ f = 1 => SamePath(P, r)
 InvCompose == Done => \A g \in ComposeWith : SamePath(Refined(r, g), Refined(P, f * g))
 (* C29, path coordinate *)
-InvKline == Done /\ KlineOK(P) => /\ KlineOK(r) /\ KlineMonotone(r, LatA) /\ KlineFlatAtBreaks(r, LatA) /\ KlineIsDistance(r, LatA)
-                                 /\ KlineRefined(P, f, r, LatA) /\ ~ThreshTie(r, LatA, THR2)
+InvKline == Done => /\ KlineOK(r) /\ KlineMonotone(r, LatA) /\ KlineFlatAtBreaks(r, LatA) /\ KlineIsDistance(r, LatA)
+                    /\ KlineRefined(P, f, r, LatA)
 =============================================================================
